@@ -8,7 +8,7 @@
    `_partial` = extra hypothesis excluding exactly a recorded finding; `_refuted` = the full statement fails,
    with a witness that the harness replays on the implementation.  The model follows /repo after the fix: commits
    eb213ea (Location), a836d08 (from_json skips unknown keys first), 9b14727 (PathInfo/ERO nothing set => ''),
-   9153c3e (MaintenanceInfo.from_json ignores unknown entry fields), 450b7bb (Gateway.from_json: no labels => absent). *)
+   9153c3e (MaintenanceInfo.from_json ignores unknown entry fields), 450b7bb (Gateway.from_json: no labels => absent), 2623e10 (update copies lists). *)
 From Coq Require Import String List NArith ZArith Bool Permutation.
 From FIM Require Import Base.Str Base.Json Base.JsonRT Gen.CodecGen Model.CodecField Model.CodecMisc Model.CodecWf
      Model.CodecChk Proofs.CodecAssoc Proofs.CodecTables Proofs.CodecFieldRT Proofs.CodecMiscRT Proofs.CodecGateway.
@@ -109,6 +109,13 @@ Theorem C03_update_spec : forall V c o kw y, NoDup (map fst kw) -> update V c o 
 Proof. exact update_spec. Qed.
 Print Assumptions C03_update_spec.
 
+(* the original is independent of the result (2623e10: list-valued fields are copied).  In a pure model this is by
+   construction; the field stream grows every list of the RESULT in place and re-reads the ORIGINAL on every run, and
+   checks `result is not original` also for update() without (effective) changes *)
+Theorem C03_update_original_independent : forall o kw marker, orig_after_result_lists_grow o kw marker = o.
+Proof. exact update_original_independent. Qed.
+Print Assumptions C03_update_original_independent.
+
 Theorem C03_update_without_changes_is_copy : forall V c o, update V c o [] = Ok o.
 Proof. exact update_nil. Qed.
 Print Assumptions C03_update_without_changes_is_copy.
@@ -188,6 +195,23 @@ Theorem C03_maint_finalized_immutable : forall ops m, mi_lock m = true ->
   fst (mrun m ops) = m /\ Forall2 (fun o r => mutating o = true -> r = RErr e_maint) ops (snd (mrun m ops)).
 Proof. exact maint_finalized_immutable. Qed.
 Print Assumptions C03_maint_finalized_immutable.
+
+(* copy(): unfinalized, same entries; nothing done to the copy reaches the original; a finalized original survives
+   every mixed history over itself and its copies (pure model: by construction -- the aliasing teeth are in the tie:
+   the maint stream re-observes the ORIGINAL's entries and encoding after every operation on the copy) *)
+Theorem C03_maint_copy_spec : forall m, mi_nodes (mi_copy m) = mi_nodes m /\ mi_lock (mi_copy m) = false.
+Proof. exact maint_copy_spec. Qed.
+Print Assumptions C03_maint_copy_spec.
+
+Theorem C03_maint_copy_independent : forall ops s, forallb (fun o => negb (on_original o)) ops = true ->
+  fst (fst (mrun2 s ops)) = fst s.
+Proof. exact maint_copy_independent. Qed.
+Print Assumptions C03_maint_copy_independent.
+
+Theorem C03_maint_finalized_immutable_with_copies : forall ops s, mi_lock (fst s) = true ->
+  fst (fst (mrun2 s ops)) = fst s.
+Proof. exact maint_finalized_immutable_with_copies. Qed.
+Print Assumptions C03_maint_finalized_immutable_with_copies.
 
 Theorem C03_maint_roundtrip : forall VISO m, minfo_wf VISO m = true -> mi_lock m = true ->
   exists s, mi_to_json m = Ok s /\ mi_from_json VISO (Some s) = Ok (Some m).
